@@ -858,6 +858,9 @@ pub fn c10_counts(start: &Pos, moves: &[Move], st: &mut Stats) -> CaseResult {
 /// search part: when the side to move has a move into a position that already occurred at least
 /// twice, the final score of every completed depth is >= 0
 pub fn c10_search(case: &SearchCase, st: &mut Stats) -> CaseResult {
+    c10_search_depth(case, 4, st)
+}
+pub fn c10_search_depth(case: &SearchCase, depths: u32, st: &mut Stats) -> CaseResult {
     st.eval();
     // does such a move exist? (position identity by the engine's own keys of its own successors)
     let succ = gen_all(&case.board, hasher());
@@ -867,7 +870,7 @@ pub fn c10_search(case: &SearchCase, st: &mut Stats) -> CaseResult {
         return Ok(());
     }
     st.label(&format!("target_count_{}", best_count.min(6)));
-    let Some((lasts, _, run)) = completed_depths(case, 4, 400_000)? else {
+    let Some((lasts, _, run)) = completed_depths(case, depths, 400_000)? else {
         st.unjudged += 1;
         return Ok(());
     };
@@ -938,7 +941,34 @@ pub fn run_c10(ctx: &mut Ctx) {
             v
         },
     );
+    run_c10_pawn_rich(ctx);
 }
+fn run_c10_pawn_rich(ctx: &mut Ctx) {
+    let t = ctx.tier;
+    // the same oracle on positions with many pawns and pieces (middlegames and pawn endings): the
+    // repeating move lands on all kinds of squares next to all kinds of neighbours
+    run_prop(
+        ctx,
+        "draw_by_repetition_available_pawn_rich_positions",
+        || (prop_oneof![3 => gamelike_walk_strategy(30), 1 => (proptest::sample::select(vec![26usize, 35, 36, 27, 44]).prop_map(Start::Corpus), proptest::collection::vec(any::<u16>(), 0..10)).prop_map(|(start, choices)| WalkRecipe { start, choices })], 2u8..5, any::<u16>(), any::<u16>(), 0u8..4).prop_map(|(walk, cycles, c1, c2, tail_cut)| RepRecipe { walk, cycles, c1, c2, tail_cut }),
+        t.pick(1_600, 30_000),
+        |r, st| {
+            let Some((start, moves)) = rep_moves(r) else { return Ok(()) };
+            let Ok(case) = make_case(&start, &moves) else { return Ok(()) };
+            if case.root.legal_moves().is_empty() {
+                return Ok(());
+            }
+            st.sample(|| case_json(&start, &moves));
+            c10_search_depth(&case, 3, st)
+        },
+        |r| {
+            let mut v = rep_json(r);
+            v["part"] = json!("search3");
+            v
+        },
+    );
+}
+
 pub fn replay_c10(case: &Value) -> CaseResult {
     let (start, moves) = parse_game_case(case)?;
     if case.get("part").and_then(|x| x.as_str()) == Some("counts") {
@@ -947,6 +977,9 @@ pub fn replay_c10(case: &Value) -> CaseResult {
     let c = make_case(&start, &moves)?;
     if c.root.legal_moves().is_empty() {
         return Ok(());
+    }
+    if case.get("part").and_then(|x| x.as_str()) == Some("search3") {
+        return c10_search_depth(&c, 3, &mut Stats::new());
     }
     c10_search(&c, &mut Stats::new())
 }
